@@ -95,7 +95,7 @@ pub fn run(ctx: &mut Ctx) {
     for n in 1..=max_n {
         let dags = all_dags(n);
         let subsets: Vec<u32> = if n <= 3 || (thorough && n <= 4) { (0..(1u32 << n)).collect() } else { vec![0b0001, 0b0110, 0b1010, (1 << n) - 1, 1 << (n - 1)] };
-        ctx.space(&format!("builder/D{n}"), &format!("{} labelled DAGs x {} annotated subsets; terms: all n! orders (n<=4) else within 2 transpositions+rotations; links: all e! (e<=4) else within 2 transpositions; annotation facts: all k! (k<=5) else within 2 transpositions+rotations; joint permutations when n,e,k <= 3", dags.len(), subsets.len()));
+        ctx.space(&format!("builder/D{n}"), &format!("{} labelled DAGs x {} annotated subsets; terms: all n! orders (n<=4) else within 2 transpositions+rotations; links: all e! (e<=4) else within 2 transpositions; annotation facts: within 2 transpositions + rotations + reverse, and every order of the facts of one record (<= 4 facts) with the others in place; joint permutations of terms x links x three annotation facts when n, e <= 3", dags.len(), subsets.len()));
         for d in &dags {
             for &s in &subsets {
                 if !ctx.take() {
@@ -138,10 +138,47 @@ pub fn run(ctx: &mut Ctx) {
                     ctx.transitions(f.n_steps());
                     class.add(ctx, drive::build(&f, Mode::Minimal), &exp, "builder", &format!("annotations {p:?}"), &case);
                 }
-                if nt <= 3 && ne <= 3 && na <= 3 {
+                // the facts of ONE record in every order while all other facts keep their places (gene 11, OMIM 600001,
+                // ORPHA 77 in turn; up to 4 facts each)
+                let positions_of = |rec: (crate::model::Kind, u32, &str)| -> Vec<usize> { base.anns.iter().enumerate().filter(|(_, a)| a.kind == rec.0 && a.id == rec.1).map(|(i, _)| i).collect() };
+                let mut record_orders: Vec<Vec<usize>> = vec![];
+                for rec in [super::common::G1, super::common::O1, super::common::R1] {
+                    let pos = positions_of(rec);
+                    if pos.len() < 2 || pos.len() > 4 {
+                        continue;
+                    }
+                    for p in permutations(pos.len()).into_iter().skip(1) {
+                        let mut order: Vec<usize> = (0..na).collect();
+                        for (k, &slot) in pos.iter().enumerate() {
+                            order[slot] = pos[p[k]];
+                        }
+                        record_orders.push(order);
+                    }
+                }
+                for p in &record_orders {
+                    let f = Facts { anns: apply_perm(&base.anns, p), ..base.clone() };
+                    ctx.transitions(f.n_steps());
+                    class.add(ctx, drive::build(&f, Mode::Minimal), &exp, "builder", &format!("facts of one record permuted: annotations {p:?}"), &case);
+                }
+                // jointly: every term order x every link order x every order of the first (up to three) facts of
+                // gene 11 / OMIM 600001 that carry a term (an earlier version of this loop required <= 3 annotation
+                // facts in total, which never happens - it never ran)
+                if nt <= 3 && ne <= 3 {
+                    let mut pos: Vec<usize> = positions_of(super::common::G1).into_iter().chain(positions_of(super::common::O1)).filter(|i| base.anns[*i].term.is_some()).collect();
+                    pos.truncate(3);
+                    let aperms: Vec<Vec<usize>> = permutations(pos.len())
+                        .into_iter()
+                        .map(|p| {
+                            let mut order: Vec<usize> = (0..na).collect();
+                            for (k, &slot) in pos.iter().enumerate() {
+                                order[slot] = pos[p[k]];
+                            }
+                            order
+                        })
+                        .collect();
                     for tp in &torders {
                         for ep in &eorders {
-                            for ap in &aorders {
+                            for ap in &aperms {
                                 let f = Facts { terms: apply_perm(&base.terms, tp), edges: apply_perm(&base.edges, ep), anns: apply_perm(&base.anns, ap), ..base.clone() };
                                 ctx.transitions(f.n_steps());
                                 class.add(ctx, drive::build(&f, Mode::Minimal), &exp, "builder", &format!("terms {tp:?} links {ep:?} annotations {ap:?}"), &case);
@@ -288,6 +325,18 @@ pub fn run(ctx: &mut Ctx) {
                 let twins: Vec<AnnFact> = anns.iter().filter(|a| a.kind == crate::model::Kind::Orpha && a.id == 77).map(|a| Facts::ann(crate::model::Kind::Omim, 77, "Omim seventy-seven", a.term)).collect();
                 anns.retain(|a| !(a.kind == crate::model::Kind::Orpha && a.id == 78));
                 anns.extend(twins);
+                // subsets 2, 6 (mod 4 == 2): the two genes share their symbol; subsets 3, 7: the two OMIM diseases share
+                // their name (names are not keys; the row orders below make their rows adjacent and non-adjacent)
+                if s % 4 == 2 {
+                    for a in anns.iter_mut().filter(|a| a.kind == crate::model::Kind::Gene) {
+                        a.name = "GENE1".into();
+                    }
+                }
+                if s % 4 == 3 {
+                    for a in anns.iter_mut().filter(|a| a.kind == crate::model::Kind::Omim) {
+                        a.name = "Disease one".into();
+                    }
+                }
                 let mut base = Facts { anns, ..base };
                 // odd subsets: a replacement chain 119 -> 118 -> 1 with the first link obsolete (each term keeps the
                 // replacement its own stanza states, whatever the stanza order)
